@@ -303,7 +303,8 @@ def mech(lines, impl):
 
 def run(v, tier, seed, prof=None, n_quick=400, n_thorough=20000, name="sim_suite", nontrivial=lambda st: st["received"],
         monitor=None, corpus=("sim",), extra=None):
-    rng = random.Random(seed * 104729 + hash(name) % 997)
+    import zlib
+    rng = random.Random(seed * 104729 + zlib.crc32(name.encode()) % 997)    # (str hash() differs from process to process)
     scen = []
     for c in corpus:
         scen += mc_suite.corpus_scenarios(c)
